@@ -28,7 +28,7 @@ ASSUMPTIONS = ['own interpolation / slerp reference agrees with the documented b
                'shortest-arc SLERP)', 'rounding bound 1e-7 output units for interpolation at own nodes',
                'at an angle difference of exactly +-180 the closed end -180 is accepted (half-open range and '
                'antisymmetry contradict each other there)']
-REQUIRED_OBS = ['resample_bool_object_columns', 'resample_large_time_origin', 'resample_near_stamps', 'unwrapped_angle_tables', 'unwrapped_angle_series', 'antimeridian_perturbations', 'antisymmetry', 'swap_branch_taken', 'self_difference', 'subsample_difference', 'reference_compared',
+REQUIRED_OBS = ['two_rate_tables', 'resample_bool_object_columns', 'resample_large_time_origin', 'resample_near_stamps', 'unwrapped_angle_tables', 'unwrapped_angle_series', 'antimeridian_perturbations', 'antisymmetry', 'swap_branch_taken', 'self_difference', 'subsample_difference', 'reference_compared',
                 'angle_range', 'resample_nodes', 'resample_slerp', 'perturb_recovered', 'to180_checked',
                 'series_pairs']
 REQUIRED_CLASSES = {'all': ['equal', 'nested', 'rates', 'partial', 'series', 'angles', 'resample']}
@@ -302,6 +302,16 @@ def run_case(case):
             k = int(rng.integers(2, 6))
             a = a_full[cols]
             sub = a.iloc[::k]
+            if rng.random() < 0.4:
+                # Round 6: a variable-rate log (dense, then sparse - or a long outage) against a sub-sampling drawn from its dense part: the table's
+                # MEAN step is far above its typical step, the sub-sampling's step lies between the two; the table is still the denser one
+                n1 = int(rng.integers(40, 90))
+                n2 = int(rng.integers(3, 12))
+                t2 = t[0] + np.r_[np.arange(n1) * dt, (n1 - 1) * dt + np.cumsum(rng.uniform(20, 100, n2) * dt)]
+                a_full = make_table(rng, t2, seam=False)
+                a = a_full[cols]
+                sub = a.iloc[:n1:k]
+                bump('two_rate_tables')
             if len(sub) >= 3:
                 for first, second, lab in ((a, sub, 'd(a, a[::k])'), (sub, a, 'd(a[::k], a)')):
                     d = transform.compute_state_difference(first, second)
